@@ -14,7 +14,7 @@ def time_exceeded(start_time, max_time):
 
 
 def score_exceeded(score_best, max_score):
-    return max_score and score_best >= max_score
+    return max_score is not None and score_best >= max_score
 
 
 def no_change(score_new_list, early_stopping):
@@ -72,7 +72,9 @@ class StopRun:
     def check(self):
         if self.max_time and time_exceeded(self.start_time, self.max_time):
             return True
-        elif self.max_score and score_exceeded(self.score_best, self.max_score):
+        elif self.max_score is not None and score_exceeded(
+            self.score_best, self.max_score
+        ):
             return True
         elif self.early_stopping and no_change(
             self.score_new_list, self.early_stopping
